@@ -2,6 +2,7 @@ import CJ.Model.WrapReg
 import CJ.Gen.PrefixTable
 import CJ.Gen.Obfs4Consts
 import CJ.Props.C08
+import CJ.Gen.ExpiryShape
 /-!
 # C02 — only proof of a validated registration's secret on that phantom opens a tunnel
 
@@ -228,6 +229,76 @@ theorem views_ident_unique (s : St) (p : String) (info) (r1 r2 : RegView)
   have : k1 = k2 := Prod.ext (by rw [f1.1, f2.1]) he
   subst this
   rw [hk1] at hk2; cases hk2; rfl
+
+/-! ## objects that lived before, duplicate deliveries (extended histories of C08) -/
+
+/-- **An object that is tracked (again) is not visible until it is validated** — whatever `Valid` flag it
+carries when it is handed to `Track`, e.g. `true` from an earlier lifetime that a sweep has ended: no
+transport is shown it, so no flight is matched to it. -/
+theorem redelivered_object_invisible (c : Cfg) (x : XSt) (p i : String) (tr now : Nat) (prior : Bool) (info)
+    (hen : c.enabled.contains tr = true) (hnew : x.b.st.decoys[(p, i)]? = none) :
+    ∀ r ∈ views (xstep c x (.trackObj (p, i) tr now prior)).1.b.st p info, r.ident ≠ i :=
+  unvalidated_rejected _ p i info ⟨tr, false, 1⟩
+    (C08.retracked_starts_unvalidated c x (p, i) tr now prior hen hnew).1 rfl
+
+/-- the delivery of a registration: validated or only tracked, the object carrying any `Valid` flag -/
+def delivery (validate : Bool) (k : Key) (tr now : Nat) (prior : Bool) : XOp :=
+  if validate then .registerObj k tr now prior else .trackObj k tr now prior
+
+/-- **A duplicate delivery does not renew a registration**: after any (extended) history in which the
+registration `(p, i)` is tracked with timeout record `t` — the record of its FIRST delivery
+(`C08.refines_spec`) — let it be delivered again at any time, with any transport number, validated or
+not, by any object; if `t` does not satisfy the age rule at `now`, then after the sweep at `now` no
+transport is shown the registration: a flight aimed at it is not accepted, however recent the
+duplicate. -/
+theorem duplicate_does_not_renew (c : Cfg) (xops : List XOp) (p i : String) (t : TO)
+    (validate : Bool) (tr' now' : Nat) (prior : Bool) (now : Nat) (info)
+    (ht : (xrun c xops).b.st.timeouts[(p, i)]? = some t) (hexp : ¬ C08.alive c now t) :
+    ∀ r ∈ views (sweep c now (xrun c (xops ++ [delivery validate (p, i) tr' now' prior])).b.st).1 p info,
+      r.ident ≠ i := by
+  have hi : Inv (xrun c xops).b.st := C08.reach_inv (C08.x_reach c xops)
+  have hd : (xrun c xops).b.st.decoys[(p, i)]? ≠ none := by
+    intro e
+    rw [(inv_none_iff _ hi (p, i)).mp e] at ht; cases ht
+  have ht' : (xrun c (xops ++ [delivery validate (p, i) tr' now' prior])).b.st.timeouts[(p, i)]? = some t := by
+    have hrun : xrun c (xops ++ [delivery validate (p, i) tr' now' prior]) =
+        (xstep c (xrun c xops) (delivery validate (p, i) tr' now' prior)).1 := by
+      simp [xrun, List.foldl_append]
+    rw [hrun]
+    cases validate with
+    | true =>
+      show (register c (xrun c xops).b.st (p, i) tr' now').1.timeouts[(p, i)]? = some t
+      rw [register_timeouts_get]; simp [hd, ht]
+    | false =>
+      show (track c (xrun c xops).b.st (p, i) tr' now').1.timeouts[(p, i)]? = some t
+      rw [track_timeouts_get]; simp [hd, ht]
+  have hr' := C08.x_reach c (xops ++ [delivery validate (p, i) tr' now' prior])
+  have hnt : (sweep c now (xrun c (xops ++ [delivery validate (p, i) tr' now' prior])).b.st).1.decoys.contains (p, i) = false := by
+    cases hc : (sweep c now (xrun c (xops ++ [delivery validate (p, i) tr' now' prior])).b.st).1.decoys.contains (p, i) with
+    | false => rfl
+    | true =>
+      obtain ⟨t', _, h2, ha⟩ := (C08.sweep_exact c _ hr' now (p, i)).mp hc
+      rw [ht'] at h2; cases h2
+      exact absurd ha hexp
+  exact not_tracked_here_invisible _ p i info hnt
+
+/-- non-vacuity: registered at 0, delivered again at 540 s, swept at 700 s — not visible -/
+example : ∀ r ∈ views (sweep C08.cfg0 700 (xrun C08.cfg0 ([.base (.register ("10.0.0.1", "a") 0 0)] ++
+    [delivery true ("10.0.0.1", "a") 0 540 true])).b.st).1 "10.0.0.1" (fun _ => (none, 0)), r.ident ≠ "a" :=
+  duplicate_does_not_renew C08.cfg0 _ "10.0.0.1" "a" ⟨0, false⟩ true 0 540 true 700 _
+    (by simp [xrun, xstep, bstep, register, C08.cfg0, xinit])
+    (by unfold C08.alive; simp [C08.cfg0])
+example : ∀ r ∈ views (xstep C08.cfg0 xinit (.trackObj ("10.0.0.1", "a") 0 5 true)).1.b.st "10.0.0.1"
+    (fun _ => (none, 0)), r.ident ≠ "a" :=
+  redelivered_object_invisible C08.cfg0 xinit "10.0.0.1" "a" 0 5 true _ (by decide) (by simp [xinit])
+
+/-- the `Valid` flag — what makes a registration visible to connections — is cleared by `track` and set
+by `register`, and written nowhere else in the package (regenerated go/ast fact): whatever flag a
+delivered object carries is overwritten when it is stored, and only validation raises it -/
+theorem valid_written_by_track_and_register_only :
+    CJ.Gen.fieldWriters.filter (fun w => w.1 == "Valid") =
+      [("Valid", "register", "assign = true"), ("Valid", "track", "assign = false")] := by
+  decide +kernel
 
 /-! ## several station keys: the prefix classifier as the code runs it -/
 
